@@ -521,6 +521,8 @@ fn handle(line: &str) -> String {
         "lit" => saphyr::verif::is_valid_literal_block_scalar(&unhex(arg(1))).to_string(),
         "emt" => run_emt(arg(1), arg(2), &f[3.min(f.len())..]),
         "dec" => run_dec(arg(1), &unhex_bytes(arg(2))),
+        // the encoding sniffer alone (what `decode` falls back to when there is no BOM)
+        "snf" => format!("sniff={}", saphyr::verif::detect_utf16_endianness(&unhex_bytes(arg(1)))),
         "cnt" => run_cnt(arg(1), &unhex(arg(2))),
         "erd" => {
             // first error of plain iteration: Display text, marker, info
